@@ -227,7 +227,17 @@ calls the constructors of the parents selected by `called` (in the order of the 
 the own properties in order, and that a parent is skipped only if it has no property at all. Before the second
 `fix:` commit the statement failed for every diamond (`a` assigned twice in `D(B, C), B(A), C(A)`). -/
 
-/-- **In-lined constructor**: exactly the stacked properties, each assigned once, in the order of the properties. -/
+/-- `A` with `self.a = a` written twice (known finding C05-F1). -/
+def twiceAssigned : List ParsedClass :=
+  [ ⟨[65], [], false, [[97]], [], [], [[97]], [.assign [97], .assign [97]], none⟩ ]
+
+/-- "Every accepted model assigns every property exactly once" is false without a hypothesis on the constructor
+source: a repeated own assignment is accepted and kept. -/
+theorem ctor_exactly_once_full_fails :
+    (match translate twiceAssigned with | .ok _ => true | _ => false) = true
+    ∧ ¬ ((inlineAll twiceAssigned [65]).map (·.target)).Nodup := by decide
+
+/-- **In-lined constructor** (`_partial`: canonical constructors): exactly the stacked properties, each assigned once, in the order of the properties. -/
 theorem ctor_inlined {called : Name → Bool} (hu : UniqueNames cs) (hp : ParentsExist cs) (ha : Acyclic cs)
     (hd : DeclaredParentsFirst cs) (hown : OwnNodup cs (·.ownProps))
     (hw : CtorsWellFormed cs called (topo cs)) (c : Name) (hc : c ∈ names cs) :
